@@ -257,6 +257,22 @@ CLAIMED["C20"] = {
     "design": "5 C20",
 }
 
+CLAIMED["C07"] = {
+    "text": "ConstAlias.tla: objects (value, const source?) reached through handles (object + const flag); routes that share the object and keep the "
+            "flag (var&, :=, parameter, capture, identity call, return, ternary, push_back_ref, attribute binding) or clone it (var =, inline vector, "
+            "push_back, ranged-for over an inline vector, map insertion, clone()); mutators that check the handle before touching the object. TLC checks "
+            "ConstObjectsUnchanged, ConstFlagSurvives and FailedAttemptsLeaveNoTrace over every chain of routes followed by any mutator from every "
+            "source, and refutes a binding that drops the flag. Every chain is exported with its prediction, printed from per-action templates and run "
+            "against 16 const sources (literals, const_var/add_global_const values, C++ objects by const&, const*, cref wrapper, shared_ptr<const>) and "
+            "5 mutable controls; the value of each C++-owned object is read from C++ before and after, the script's own view before/after, and an "
+            "attempt through a const handle must fail - counted only where the same chain+mutator provably mutates the control.",
+    "note": "Chains of length <= 1 exhaustively and a seeded 2500 of length 2 in quick; all of length <= 2 in thorough (about 56,000 scripts). Known findings: "
+            "const of Vector/Map is shallow (elements stay mutable, also through by-value copies). A by-value `const T` return and a shared_ptr<int> parameter "
+            "receiving a converted number are not const objects and are outside the family (DESIGN.md).",
+    "technique": "TLC model checking of the handle/route/mutator machine + TLC-enumerated chains replayed into the implementation with C++-side observation and mutable controls",
+    "design": "5 C07",
+}
+
 PENDING_REASON = "check not built yet in this session; planned (see DESIGN.md section 8)"
 
 ALL = [f"C{i:02d}" for i in range(1, 21)]
